@@ -1,5 +1,5 @@
 """C06 line anchors and trailing context."""
-from .. import corpus
+from .. import corpus, engines as E
 from . import common
 from .c02 import C, compatible
 
@@ -15,6 +15,15 @@ def configs(tier):
 
 def run(ctx):
     quick = ctx.tier == 'quick'
+    # trailing context after yymore(): inductive yylex step whose pre-state carries a yymore() prefix
+    jobs = []
+    for s in common.select(ctx, corpus.specs(names=['tc_min', 'tc_fixed_trail'] if quick else ['tc_min', 'tc_fixed_trail', 'tc_fixed_head', 'tc_both_fixed', 'tc_compete'])):
+        for c in [C('Cem'), C('array', options=['array', 'yylmax=16'])] + ([] if quick else [C('Cfe', ['-Cfe']), C('r', api='r')]):
+            for (bs, m) in ([(2, 1)] if quick else [(2, 1), (3, 1), (2, 2)]):
+                js, g = E.e3w_jobs(ctx, s, c, bs, m, maxnul=0, witness=False, timeout=(280 if quick else 1800), mem_mb=(10000 if quick else 24000), more=True)
+                if g.ok:
+                    jobs += js
+    ctx.run_cbmc(jobs)
     specs = [s for s in common.select(ctx, corpus.specs()) if s.tags & {'bol', 'trail', 'eol'}]
     pairs = [(s, c) for s in specs for c in configs(ctx.tier) if not compatible(s, c)]
     common.tokenization_pairs(ctx, pairs, e1_tag=None, e1_lengths=range(0, 5) if quick else range(0, 6),
